@@ -37,7 +37,7 @@ for d in sorted(glob.glob(os.path.join(HERE, "seeded", "*"))):
     status = meta.get("status", "kept")
     rows += "| `%s` | %s | %s | %s | %s | %s | %s |\n" % (os.path.basename(d), meta.get("property"), esc(meta.get("summary", "")), esc(meta.get("needs_to_manifest", "")),
                                                        first, caught, esc(meta.get("note", status)))
-t3 = ("| seed | property | change | needs, to manifest | caught at first measurement (round 3 only) | caught by (quick tier, final code) | note |\n"
+t3 = ("| seed | property | change | needs, to manifest | caught at first measurement (rounds 3 and 4) | caught by (quick tier, final code) | note |\n"
       "|------|----------|--------|--------------------|---------------------|------------------------|------|\n" + rows)
 s = re.sub(r"<!-- SEED-TABLE -->.*?<!-- /SEED-TABLE -->", lambda m: "<!-- SEED-TABLE -->\n" + t3 + "<!-- /SEED-TABLE -->", s, flags=re.S)
 rows = ""
